@@ -77,12 +77,12 @@ theorem wsub_pow_one {w k : Nat} (hk : k < w) : wsubW w (2 ^ k) 1 = 2 ^ k - 1 :=
 /-- Garner step of `inv_mod` on values. -/
 theorem crt_core {w s k a xs b si : Nat} (hk : k < w) (hm : s * 2 ^ k < 2 ^ w)
     (hs : Nat.Coprime s (2 ^ k))
-    (hxs : xs < s) (hax : a * xs ≡ 1 [MOD s])
-    (_hb : b < 2 ^ k) (hab : a * b ≡ 1 [MOD 2 ^ k])
+    (hxs : xs < s ∨ (s = 1 ∧ xs = 1)) (hax : a * xs ≡ 1 [MOD s])
+    (hb : b < 2 ^ k) (hab : a * b ≡ 1 [MOD 2 ^ k])
     (hsi : s * si ≡ 1 [MOD 2 ^ k]) :
     let t := ((wsubW w b xs * si) % 2 ^ w) &&& (wsubW w (2 ^ k) 1)
     let r := (xs + (s * t) % 2 ^ w) % 2 ^ w
-    r < s * 2 ^ k ∧ a * r ≡ 1 [MOD s * 2 ^ k] := by
+    (r < s * 2 ^ k ∨ (s * 2 ^ k = 1 ∧ r = 1)) ∧ a * r ≡ 1 [MOD s * 2 ^ k] := by
   intro t r
   have hd : 2 ^ k ∣ 2 ^ w := Nat.pow_dvd_pow 2 (by omega)
   have ht : t = (wsubW w b xs * si) % 2 ^ k := by
@@ -90,18 +90,60 @@ theorem crt_core {w s k a xs b si : Nat} (hk : k < w) (hm : s * 2 ^ k < 2 ^ w)
     rw [wsub_pow_one hk, Nat.and_two_pow_sub_one_eq_mod, Nat.mod_mod_of_dvd _ hd]
   have htlt : t < 2 ^ k := by rw [ht]; exact Nat.mod_lt _ (Nat.two_pow_pos k)
   have hpos : 0 < 2 ^ k := Nat.two_pow_pos k
-  -- no overflow: xs + s·t ≤ s·2^k − 1
-  have hbound : xs + s * t < s * 2 ^ k := by
-    have h1 : s * t ≤ s * (2 ^ k - 1) := Nat.mul_le_mul_left s (by omega)
-    have h2 : s * (2 ^ k - 1) = s * 2 ^ k - s := by
-      rw [Nat.mul_sub, Nat.mul_one]
-    have h3 : s ≤ s * 2 ^ k := Nat.le_mul_of_pos_right s hpos
-    omega
+  -- no overflow: xs + s·t ≤ s·2^k − 1 (for the unit modulus with xs = 1: ≤ 2^k)
+  have hst1 : s * t ≤ s * (2 ^ k - 1) := Nat.mul_le_mul_left s (by omega)
+  have hst2 : s * (2 ^ k - 1) = s * 2 ^ k - s := by rw [Nat.mul_sub, Nat.mul_one]
+  have hst3 : s ≤ s * 2 ^ k := Nat.le_mul_of_pos_right s hpos
+  have hbound : xs + s * t < s * 2 ^ k ∨ (s = 1 ∧ xs = 1 ∧ xs + s * t ≤ s * 2 ^ k) := by
+    rcases hxs with h | ⟨h1, h2⟩
+    · left; omega
+    · right; refine ⟨h1, h2, ?_⟩; omega
+  have hle : xs + s * t ≤ s * 2 ^ k := by
+    rcases hbound with h | ⟨_, _, h⟩
+    · omega
+    · exact h
   have hst : s * t < 2 ^ w := by omega
   have hr : r = xs + s * t := by
     show (xs + (s * t) % 2 ^ w) % 2 ^ w = _
     rw [Nat.mod_eq_of_lt hst, Nat.mod_eq_of_lt (by omega)]
-  refine ⟨by rw [hr]; exact hbound, ?_⟩
+  -- the two congruences do not depend on the size of xs
+  have hmod2k : xs + s * t ≡ b [MOD 2 ^ k] := by
+    have hw1 : wsubW w b xs + xs ≡ b [MOD 2 ^ k] := Nat.ModEq.of_dvd hd wsubW_modEq
+    have ht2 : t ≡ wsubW w b xs * si [MOD 2 ^ k] := by
+      rw [ht]; exact Nat.mod_modEq _ _
+    have h1 : s * t ≡ (s * si) * wsubW w b xs [MOD 2 ^ k] := by
+      have := Nat.ModEq.mul_left s ht2
+      have e : s * (wsubW w b xs * si) = (s * si) * wsubW w b xs := by ring
+      rw [e] at this; exact this
+    have h2 : (s * si) * wsubW w b xs ≡ 1 * wsubW w b xs [MOD 2 ^ k] := Nat.ModEq.mul_right _ hsi
+    have := Nat.ModEq.add_left xs (h1.trans h2)
+    rw [Nat.one_mul] at this
+    rw [Nat.add_comm] at hw1
+    exact this.trans hw1
+  refine ⟨?_, ?_⟩
+  · rw [hr]
+    rcases hbound with h | ⟨h1, h2, _⟩
+    · left; exact h
+    · -- unit modulus, xs = 1: xs + t = 2^k would force b = 0, impossible unless k = 0
+      by_cases hlt : xs + s * t < s * 2 ^ k
+      · left; exact hlt
+      · right
+        have heq : xs + s * t = s * 2 ^ k := by omega
+        have hb0 : b % 2 ^ k = 0 := by
+          have := hmod2k
+          unfold Nat.ModEq at this
+          rw [heq, h1, Nat.one_mul, Nat.mod_self] at this
+          exact this.symm
+        have hbz : b = 0 := by rw [Nat.mod_eq_of_lt hb] at hb0; exact hb0
+        have h2k : 2 ^ k = 1 := by
+          have := hab
+          unfold Nat.ModEq at this
+          rw [hbz, Nat.mul_zero, Nat.zero_mod] at this
+          by_contra hne
+          have : 1 % 2 ^ k = 1 := Nat.mod_eq_of_lt (by omega)
+          omega
+        refine ⟨by rw [h1, h2k], ?_⟩
+        rw [heq, h1, h2k]
   rw [hr]
   apply (Nat.modEq_and_modEq_iff_modEq_mul hs).mp
   constructor
@@ -112,32 +154,20 @@ theorem crt_core {w s k a xs b si : Nat} (hk : k < w) (hm : s * 2 ^ k < 2 ^ w)
       unfold Nat.ModEq; simp
     exact h0.trans hax
   · -- modulo 2^k : xs + s·t ≡ b
-    have hw1 : wsubW w b xs + xs ≡ b [MOD 2 ^ k] := Nat.ModEq.of_dvd hd wsubW_modEq
-    have ht2 : t ≡ wsubW w b xs * si [MOD 2 ^ k] := by
-      rw [ht]; exact Nat.mod_modEq _ _
-    -- s·t + xs ≡ s·si·(b − xs) + xs ≡ b
-    have h1 : s * t ≡ (s * si) * wsubW w b xs [MOD 2 ^ k] := by
-      have := Nat.ModEq.mul_left s ht2
-      have e : s * (wsubW w b xs * si) = (s * si) * wsubW w b xs := by ring
-      rw [e] at this; exact this
-    have h2 : (s * si) * wsubW w b xs ≡ 1 * wsubW w b xs [MOD 2 ^ k] := Nat.ModEq.mul_right _ hsi
-    have h3 : xs + s * t ≡ b [MOD 2 ^ k] := by
-      have := Nat.ModEq.add_left xs (h1.trans h2)
-      rw [Nat.one_mul] at this
-      rw [Nat.add_comm] at hw1
-      exact this.trans hw1
-    exact (Nat.ModEq.mul_left a h3).trans hab
+    exact (Nat.ModEq.mul_left a hmod2k).trans hab
 
 end CB.InvMod2k
 
 namespace CB.InvMod2k
 
 /-- What `inv_mod` needs of the odd-modulus inverter `inv a s` (`Uint::inv_odd_mod`): for odd
-    `s < 2^w` it answers `some x` exactly when `gcd(a, s) = 1`, with `x < s`, `a·x ≡ 1 (mod s)`. -/
+    `s < 2^w` it answers `some x` exactly when `gcd(a, s) = 1`, with `x < s`, `a·x ≡ 1 (mod s)`.
+    For the unit modulus `s = 1` the real inverter may answer `1` instead of `0` (it does for
+    `a = 1`: the adjuster `ONE` is not `< s`), which the property allows (range only for `m ≥ 2`). -/
 def OddInvSpec (inv : Nat → Nat → Option Nat) (w : Nat) : Prop :=
   ∀ a s, a < 2 ^ w → s < 2 ^ w → s % 2 = 1 →
     match inv a s with
-    | some x => Nat.gcd a s = 1 ∧ x < s ∧ a * x ≡ 1 [MOD s]
+    | some x => Nat.gcd a s = 1 ∧ (x < s ∨ (s = 1 ∧ x = 1)) ∧ a * x ≡ 1 [MOD s]
     | none => Nat.gcd a s ≠ 1
 
 theorem invMod2k_snd (w a k : Nat) : (invMod2k w a k).2 = (decide (k = 0) || decide (a % 2 = 1)) := rfl
@@ -152,7 +182,7 @@ theorem invMod2k_spec {w a k : Nat} (hk : k ≤ w) (ha : a % 2 = 1) :
 theorem invModWith_spec (inv : Nat → Nat → Option Nat) (w a m : Nat) (H : OddInvSpec inv w)
     (ha : a < 2 ^ w) (hm0 : 0 < m) (hm : m < 2 ^ w) :
     match invModWith inv w a m with
-    | R.some x => Nat.gcd a m = 1 ∧ x < m ∧ a * x ≡ 1 [MOD m]
+    | R.some x => Nat.gcd a m = 1 ∧ (x < m ∨ (m = 1 ∧ x = 1)) ∧ a * x ≡ 1 [MOD m]
     | R.none => Nat.gcd a m ≠ 1
     | R.panic => False := by
   obtain ⟨hk, hmul, hsodd⟩ := tzNat_spec w m hm0 hm
